@@ -640,6 +640,7 @@ func evExec(w *world, f []string) (res string, ok bool) {
 			}
 			ne.sess = s
 			w.ev = ne
+			ne.installTokenMeta()
 			return "ok", true
 		}
 		if len(f) != 6 {
@@ -671,8 +672,12 @@ func evExec(w *world, f []string) (res string, ok bool) {
 		}
 		ne.sess = s
 		w.ev = ne
+		ne.installTokenMeta()
 		s.TakeRefreshRequested()
 		return ne.answer("ok "), true
+	case "evpart", "evks", "evtmeta", "evrouted":
+		a, _ := tokenMetaExec(e, f)
+		return a, true
 	case "evhost":
 		o, id, a, c, dc := atoi(f[1]), atoi(f[2]), atoi(f[3]), atoi(f[4]), atoi(f[5])
 		e.objs[o] = gocql.VerifEvHost(hid(id), evIP(a), f[6] == "l", evIP(c), evDC(dc))
@@ -839,6 +844,19 @@ func (g *evGen) emit(op, class string, nt bool) string {
 		g.dead = true
 	}
 	return a
+}
+
+// lastOpWord: the op word of the last step that changed the session (for the class of the observations after it)
+func (g *evGen) lastOpWord() string {
+	for i := len(g.cases) - 1; i >= 0; i-- {
+		w := strings.Fields(g.cases[i].op)[0]
+		switch w {
+		case "evtmeta", "evrouted", "evnotoffered", "evnostale", "evfollows", "evfollowsx", "evinpolicy", "evinpolicyx", "evpart", "evks":
+			continue
+		}
+		return w
+	}
+	return "reset"
 }
 
 func evScenario(r *vh.Rng, idx int) []evCase {
@@ -1032,6 +1050,9 @@ func (g *evGen) direct() {
 			g.emit(fmt.Sprintf("evadd %d", o), "evadd", true)
 		}
 	}
+	if strings.HasPrefix(pol, "ta") && !g.dead && r.Intn(10) < 7 {
+		g.emit("evpart", "evpart", true) // else the history starts without a partitioner (no token ring yet)
+	}
 	var addrs []int
 	for a := 2; a <= nAddr+1+nIDs; a++ {
 		addrs = append(addrs, a)
@@ -1079,6 +1100,7 @@ func (g *evGen) direct() {
 		if !g.dead && len(g.w.ev.tracked) > 0 && r.Intn(3) == 0 {
 			g.emit("evnotoffered", "evnotoffered/spec-backed", true)
 		}
+		g.tokenOps(pol, g.lastOpWord())
 	}
 	if !g.dead {
 		g.emit("evnostale", "evnostale/spec-backed", true)
@@ -1339,5 +1361,6 @@ func (g *evGen) withControl() {
 		if !g.dead && len(g.w.ev.tracked) > 0 && r.Intn(3) == 0 {
 			g.emit("evnotoffered", "evnotoffered/spec-backed", true)
 		}
+		g.tokenOps(pol, g.lastOpWord())
 	}
 }
